@@ -63,6 +63,18 @@ pub enum UOp {
   BufferCountTime(u8, u8),
   SampleInterval(u8),
   GroupFlat(u8),
+  Average,
+  /// timestamp() with the (real-clock) instant mapped away again
+  Timestamp,
+  OnComplete,
+  /// on_error swallows the error: downstream sees no terminal after it
+  OnError,
+  ScanInitial,
+  ReduceInitial,
+  DistinctUntilKeyChanged,
+  /// delay_at / delay_subscription_at with the instant `build time + off ms`
+  DelayAt(i8),
+  DelaySubscriptionAt(i8),
 }
 
 #[derive(Clone, Debug, Serialize, Deserialize, PartialEq)]
@@ -100,6 +112,28 @@ pub enum Node {
   PullIter(u8),
   /// from_stream over an always-ready stream of n items that counts its polls
   PollStream(u8),
+  /// from_stream_result over the same counting stream (items wrapped in Ok)
+  PollStreamR(u8),
+  /// unbounded interval_at(build time + off ms, p) (C16 producer)
+  TickerAt { off: i8, p: u8 },
+  Never,
+  /// defer(|| build(inner))
+  Defer(Box<Node>),
+  OfFn,
+  Start,
+  /// of_result(Ok | Err)
+  OfResult(bool),
+  /// of_option(Some | None)
+  OfOption(bool),
+  Repeat(u8),
+  /// from_future_result over a ready Ok | Err
+  FromFutureResult(bool),
+  /// from_stream_result over a ready stream of n items, the i-th an Err
+  FromStreamResult { n: u8, err_at: Option<u8> },
+  /// interval_at(build time + off ms, p).take(take)
+  IntervalAt { off: i8, p: u8, take: u8 },
+  /// timer_at(build time + off ms)
+  TimerAt { off: i8 },
   U(UOp, Box<Node>),
   B(BOp, Box<Node>, Box<Node>),
   /// merge_all(n) (None = flatten / unbounded) over `outer` whose items pick
@@ -207,6 +241,17 @@ fn ms(d: u8) -> Duration {
   Duration::from_millis(d as u64)
 }
 
+/// the instant `off` ms away from the simulated now (which may lie before the
+/// simulation's epoch)
+fn at(off: i8) -> std::time::Instant {
+  let t = shared().now() as i64 + off as i64 * 1_000_000;
+  if t >= 0 {
+    crate::world::instant_at(t as u64)
+  } else {
+    crate::world::base_instant() - Duration::from_nanos((-t) as u64)
+  }
+}
+
 fn edge(e: u8) -> ThrottleEdge {
   match e % 3 {
     0 => ThrottleEdge::leading(),
@@ -218,7 +263,7 @@ fn edge(e: u8) -> ThrottleEdge {
 macro_rules! build_fn {
   ($fname:ident, $env:ty, $box:ty, $sched:expr, $subject:ty, $subscriber:ty,
    $merge:ident, $zip:ident, $combine:ident, $wlf:ident, $take_until:ident, $skip_until:ident, $sample:ident,
-   $merge_all:ident, $flatten:ident, $flat_map:ident, $concat_map:ident, $concat_all:ident, $finalize:ident, $share:ident, $delay:ident, $observe_on:ident) => {
+   $merge_all:ident, $flatten:ident, $flat_map:ident, $concat_map:ident, $concat_all:ident, $finalize:ident, $share:ident, $delay:ident, $observe_on:ident, $delay_at:ident) => {
     pub fn $fname(node: &Node, env: &$env) -> $box {
       match node {
         Node::Hot(i) => env.hots[*i % env.hots.len()].clone().box_it(),
@@ -265,6 +310,47 @@ macro_rules! build_fn {
         }
         Node::PullIter(n) => observable::from_iter(CountIt { i: 0, n: *n, c: env.counters.clone() }).on_error_map(|_| 0).box_it(),
         Node::PollStream(n) => observable::from_stream(CountStream { i: 0, n: *n, c: env.counters.clone() }, $sched).on_error_map(|_| 0).box_it(),
+        Node::PollStreamR(n) => {
+          let st = futures::StreamExt::map(CountStream { i: 0, n: *n, c: env.counters.clone() }, |v| Ok::<Val, E>(v));
+          observable::from_stream_result(st, $sched).box_it()
+        }
+        Node::TickerAt { off, p } => {
+          let c = env.counters.clone();
+          c.ticker_instances.fetch_add(1, SeqCst);
+          observable::interval_at(at(*off), ms((*p).max(1)), $sched)
+            .map(move |i| {
+              c.ticks.lock().unwrap().push(shared().stamp());
+              Val::I(700 + i as i64)
+            })
+            .on_error_map(|_| 0)
+            .box_it()
+        }
+        Node::Never => observable::never().map(|_| Val::I(0)).on_error_map(|_| 0).box_it(),
+        Node::Defer(inner) => {
+          let inner = (**inner).clone();
+          let env2 = env.clone();
+          observable::defer(move || $fname(&inner, &env2)).box_it()
+        }
+        Node::OfFn => observable::of_fn(|| Val::I(810)).on_error_map(|_| 0).box_it(),
+        Node::Start => observable::start(|| Val::I(811)).on_error_map(|_| 0).box_it(),
+        Node::OfResult(ok) => observable::of_result(if *ok { Ok(Val::I(812)) } else { Err(8) }).box_it(),
+        Node::OfOption(some) => observable::of_option(if *some { Some(Val::I(813)) } else { None }).on_error_map(|_| 0).box_it(),
+        Node::Repeat(n) => observable::repeat(Val::I(814), *n as usize).on_error_map(|_| 0).box_it(),
+        Node::FromFutureResult(ok) => {
+          let r: Result<Val, E> = if *ok { Ok(Val::I(851)) } else { Err(6) };
+          observable::from_future_result(futures::future::ready(r), $sched).box_it()
+        }
+        Node::FromStreamResult { n, err_at } => {
+          let err_at = *err_at;
+          let it = (0..*n).map(move |i| -> Result<Val, E> { if Some(i) == err_at { Err(5) } else { Ok(Val::I(870 + i as i64)) } });
+          observable::from_stream_result(futures::stream::iter(it), $sched).box_it()
+        }
+        Node::IntervalAt { off, p, take } => observable::interval_at(at(*off), ms((*p).max(1)), $sched)
+          .take(*take as usize)
+          .map(|i| Val::I(720 + i as i64))
+          .on_error_map(|_| 0)
+          .box_it(),
+        Node::TimerAt { off } => observable::timer_at(Val::I(801), at(*off), $sched).on_error_map(|_| 0).box_it(),
         Node::B(op, a, b) => {
           let a = $fname(a, env);
           let b = $fname(b, env);
@@ -382,6 +468,28 @@ macro_rules! build_fn {
               let m = (*m as i64).max(1);
               s.group_by::<_, _, $subject>(move |v: &Val| v.weight().rem_euclid(m)).$flatten().box_it()
             }
+            UOp::Average => s.average().box_it(),
+            UOp::Timestamp => s.timestamp().map(|(v, _)| v).box_it(),
+            UOp::OnComplete => {
+              let c = env.counters.clone();
+              s.on_complete(move || {
+                c.taps.fetch_add(1, SeqCst);
+              })
+              .box_it()
+            }
+            UOp::OnError => {
+              let c = env.counters.clone();
+              s.on_error(move |_e: E| {
+                c.taps.fetch_add(1, SeqCst);
+              })
+              .on_error_map(|_| 0)
+              .box_it()
+            }
+            UOp::ScanInitial => s.scan_initial(Val::I(3), |a: Val, v: Val| a + v).box_it(),
+            UOp::ReduceInitial => s.reduce_initial(Val::I(4), |a: Val, v: Val| a + v).box_it(),
+            UOp::DistinctUntilKeyChanged => s.distinct_until_key_changed(|v: &Val| v.weight() % 3).box_it(),
+            UOp::DelayAt(off) => s.$delay_at(at(*off), $sched).box_it(),
+            UOp::DelaySubscriptionAt(off) => s.delay_subscription_at(at(*off), $sched).box_it(),
           }
         }
       }
@@ -411,7 +519,8 @@ build_fn!(
   finalize,
   share,
   delay,
-  observe_on
+  observe_on,
+  delay_at
 );
 
 build_fn!(
@@ -436,7 +545,8 @@ build_fn!(
   finalize_threads,
   share_threads,
   delay_threads,
-  observe_on_threads
+  observe_on_threads,
+  delay_at_threads
 );
 
 // ------------------------------------------------------------------ analysis
@@ -444,7 +554,7 @@ build_fn!(
 impl Node {
   pub fn size(&self) -> usize {
     match self {
-      Node::U(_, s) => 1 + s.size(),
+      Node::U(_, s) | Node::Defer(s) => 1 + s.size(),
       Node::B(_, a, b) => 1 + a.size() + b.size(),
       Node::Flat { outer, inners, .. } => 1 + outer.size() + inners.iter().map(|i| i.size()).sum::<usize>(),
       _ => 1,
@@ -488,6 +598,22 @@ impl Node {
         Node::FromStream(_) => out.push("FromStream".into()),
         Node::PullIter(_) => out.push("PullIter".into()),
         Node::PollStream(_) => out.push("PollStream".into()),
+        Node::PollStreamR(_) => out.push("PollStreamR".into()),
+        Node::TickerAt { .. } => out.push("TickerAt".into()),
+        Node::Never => out.push("Never".into()),
+        Node::Defer(s) => {
+          out.push("Defer".into());
+          rec(s, out);
+        }
+        Node::OfFn => out.push("OfFn".into()),
+        Node::Start => out.push("Start".into()),
+        Node::OfResult(_) => out.push("OfResult".into()),
+        Node::OfOption(_) => out.push("OfOption".into()),
+        Node::Repeat(_) => out.push("Repeat".into()),
+        Node::FromFutureResult(_) => out.push("FromFutureResult".into()),
+        Node::FromStreamResult { .. } => out.push("FromStreamResult".into()),
+        Node::IntervalAt { .. } => out.push("IntervalAt".into()),
+        Node::TimerAt { .. } => out.push("TimerAt".into()),
       }
     }
     let mut v = Vec::new();
@@ -500,7 +626,7 @@ impl Node {
     self.op_names().iter().any(|n| {
       matches!(
         n.as_str(),
-        "Interval" | "Timer" | "Ticker" | "PollStream" | "FromFuture" | "FromStream" | "Delay" | "DelaySubscription" | "SubscribeOn" | "ObserveOn" | "Debounce" | "Throttle" | "BufferTime" | "BufferCountTime" | "SampleInterval"
+        "Interval" | "Timer" | "Ticker" | "TickerAt" | "PollStream" | "PollStreamR" | "FromFuture" | "FromStream" | "FromFutureResult" | "FromStreamResult" | "IntervalAt" | "TimerAt" | "DelayAt" | "DelaySubscriptionAt" | "Delay" | "DelaySubscription" | "SubscribeOn" | "ObserveOn" | "Debounce" | "Throttle" | "BufferTime" | "BufferCountTime" | "SampleInterval"
       )
     })
   }
@@ -510,15 +636,17 @@ impl Node {
       return false;
     }
     match self {
-      Node::U(_, s) => s.valid(depth + 1),
+      Node::U(_, s) | Node::Defer(s) => s.valid(depth + 1),
       Node::B(_, a, b) => a.valid(depth + 1) && b.valid(depth + 1),
       Node::Flat { outer, inners, .. } => inners.len() <= 4 && outer.valid(depth + 1) && inners.iter().all(|i| i.valid(depth + 1)),
       Node::Interval { p, take } => *p >= 1 && *take >= 1 && *take <= 20,
       Node::FromIter(n) => *n <= 20,
-      Node::Ticker { p } => *p >= 1,
+      Node::Ticker { p } | Node::TickerAt { p, .. } => *p >= 1,
       Node::Create(sc) => sc.len() <= 8,
-      Node::FromStream(n) => *n <= 20,
-      Node::PullIter(n) | Node::PollStream(n) => *n <= 60,
+      Node::FromStream(n) | Node::Repeat(n) => *n <= 20,
+      Node::FromStreamResult { n, .. } => *n <= 20,
+      Node::IntervalAt { p, take, .. } => *p >= 1 && *take >= 1 && *take <= 20,
+      Node::PullIter(n) | Node::PollStream(n) | Node::PollStreamR(n) => *n <= 60,
       _ => true,
     }
   }
@@ -542,7 +670,7 @@ fn gen_uop(rng: &mut Rng, cfg: &GenCfg) -> UOp {
   loop {
     let small = rng.below(4) as u8;
     let w = *rng.pick(&[1u8, 2, 5]);
-    let plain = 48usize;
+    let plain = 56usize;
     let pick = rng.below(plain + cfg.sched_weight * 10);
     let op = if pick < plain {
       match pick {
@@ -585,10 +713,19 @@ fn gen_uop(rng: &mut Rng, cfg: &GenCfg) -> UOp {
         38 | 39 => UOp::Share,
         40 => UOp::BoxIt,
         41 => UOp::GroupFlat(small + 1),
+        42 => UOp::Average,
+        43 => UOp::Timestamp,
+        44 => UOp::OnComplete,
+        45 => UOp::OnError,
+        46 => UOp::ScanInitial,
+        47 => UOp::ReduceInitial,
+        48 => UOp::DistinctUntilKeyChanged,
         _ => UOp::Map,
       }
     } else {
-      match rng.below(10) {
+      match rng.below(12) {
+        10 => UOp::DelayAt(*rng.pick(&[-3i8, 0, 1, 5])),
+        11 => UOp::DelaySubscriptionAt(*rng.pick(&[-3i8, 0, 1, 5])),
         0 | 1 => UOp::Delay(*rng.pick(&[0u8, 1, 5])),
         2 => UOp::DelaySubscription(*rng.pick(&[0u8, 1, 5])),
         3 => UOp::SubscribeOn,
@@ -615,7 +752,9 @@ fn gen_uop(rng: &mut Rng, cfg: &GenCfg) -> UOp {
 pub fn gen_node(rng: &mut Rng, cfg: &GenCfg, depth: usize) -> Node {
   let leaf = depth >= cfg.max_depth || rng.chance(1, 4 + depth);
   if leaf && cfg.producer_leaves {
-    return match rng.below(13) {
+    return match rng.below(16) {
+      13 => Node::TickerAt { off: *rng.pick(&[-3i8, 0, 1, 5]), p: *rng.pick(&[1u8, 2, 5]) },
+      14 | 15 => Node::PollStreamR(rng.range(0, 40) as u8),
       0..=3 => Node::Ticker { p: *rng.pick(&[1u8, 2, 5]) },
       4..=6 => Node::PullIter(rng.range(0, 40) as u8),
       7 | 8 => Node::PollStream(rng.range(0, 40) as u8),
@@ -624,7 +763,22 @@ pub fn gen_node(rng: &mut Rng, cfg: &GenCfg, depth: usize) -> Node {
     };
   }
   if leaf {
-    return match rng.below(15) {
+    return match rng.below(20) {
+      15 => match rng.below(6) {
+        0 => Node::Never,
+        1 => Node::OfFn,
+        2 => Node::Start,
+        3 => Node::OfResult(rng.chance(1, 2)),
+        4 => Node::OfOption(rng.chance(1, 2)),
+        _ => Node::Repeat(rng.below(4) as u8),
+      },
+      16 => Node::FromFutureResult(rng.chance(1, 2)),
+      17 => {
+        let n = rng.below(4) as u8;
+        Node::FromStreamResult { n, err_at: if n > 0 && rng.chance(1, 2) { Some(rng.below(n as usize) as u8) } else { None } }
+      }
+      18 => Node::IntervalAt { off: *rng.pick(&[-3i8, 0, 1, 5]), p: *rng.pick(&[1u8, 2, 5]), take: rng.range(1, 4) as u8 },
+      19 => Node::TimerAt { off: *rng.pick(&[-3i8, 0, 1, 5]) },
       12 => Node::Create((0..rng.below(6)).map(|_| rng.weighted(&[5, 1, 2]) as u8).collect()),
       13 => Node::FromFuture,
       14 => Node::FromStream(rng.below(4) as u8),
@@ -636,6 +790,9 @@ pub fn gen_node(rng: &mut Rng, cfg: &GenCfg, depth: usize) -> Node {
       10 => Node::Interval { p: *rng.pick(&[1u8, 2, 5]), take: rng.range(1, 4) as u8 },
       _ => Node::Timer { d: *rng.pick(&[0u8, 1, 5]) },
     };
+  }
+  if rng.chance(1, 25) {
+    return Node::Defer(Box::new(gen_node(rng, cfg, depth + 1)));
   }
   match rng.below(10) {
     0..=5 => Node::U(gen_uop(rng, cfg), Box::new(gen_node(rng, cfg, depth + 1))),
